@@ -4,6 +4,8 @@ import (
 	"context"
 	"fmt"
 	"net/http"
+	"strconv"
+	"strings"
 	"time"
 
 	"github.com/thushan/olla/internal/adapter/converter"
@@ -49,7 +51,16 @@ func (s *SecurityAdapters) CreateChainMiddleware() func(http.Handler) http.Handl
 				result, err := s.securityChain.Validate(r.Context(), secReq)
 				if err != nil || !result.Allowed {
 					// Write appropriate error response
-					http.Error(w, "Security validation failed", http.StatusForbidden)
+					switch {
+					case err == nil && result.RetryAfter > 0:
+						// refused by the rate limiter
+						w.Header().Set("Retry-After", strconv.Itoa(result.RetryAfter))
+						http.Error(w, "Too Many Requests", http.StatusTooManyRequests)
+					case err == nil && strings.HasPrefix(result.Reason, "Request body too large"):
+						http.Error(w, "Request body too large", http.StatusRequestEntityTooLarge)
+					default:
+						http.Error(w, "Security validation failed", http.StatusForbidden)
+					}
 					return
 				}
 			}
